@@ -484,6 +484,28 @@ func genC01(e *emitter, r *rng, tier string) {
 		}
 		e.emit("twcc-count", opDec("TransportLayerCC", b))
 	}
+	// the F3 family: status count 65535, eight run-length chunks of 8191 "small delta", a vector chunk, repeated.
+	// A 16-bit status counter that wraps keeps appending ~65 000 deltas per repetition from 18 octets of input.
+	for _, reps := range []int{1, 2, 6, 12} {
+		var body []byte
+		for k := 0; k < reps; k++ {
+			for c := 0; c < 8; c++ {
+				body = append(body, 0x3F, 0xFF) // run-length, symbol 1, run 8191
+			}
+			body = append(body, 0x80, 0x00) // one-bit vector chunk, all not received
+		}
+		b := make([]byte, 20, 20+len(body)+4)
+		b[0], b[1] = 0x8F, 205
+		b[14], b[15] = 0xFF, 0xFF
+		b = append(b, body...)
+		for len(b)%4 != 0 {
+			b = append(b, 0)
+		}
+		l := len(b)/4 - 1
+		b[2], b[3] = byte(l>>8), byte(l)
+		e.emit("twcc-wrap", opDec("TransportLayerCC", b))
+		e.emit("twcc-wrap-dgram", opDgram(b))
+	}
 }
 
 // ---- C04: RFC-valid encodings the library's encoder never produces ----
